@@ -25,6 +25,9 @@
                                        answers `ret=<number accepted>/<index of the first refused one, -1 if none>` and the error of the first refusal
      readmany <arr> <k> <n> <seed>     bulk: Crystal_ReadFile("<dir>/f<k>.dat", arr); the file was written by props/c14.py and holds the
                                        generated crystals 0..n-1 of family <seed> in the syntax of data/Crystals.dat
+   N:<op>  (add, addmany, read, readmany)  the same operation with a NULL error slot (`xrl_error **error` = NULL, as a caller that only looks at the
+                                       return value writes it): the answer line carries the plain operation name and `err=-`; everything else — return value,
+                                       refusals, the state observed afterwards — must be what the call with a slot gives.  addmany: every single addition without slot.
    <arr> = B (NULL: built-in) | A<i> ;  <src> = N (NULL) | O<j> | L <crystal>
    <crystal> = name a b c alpha beta gamma volume natoms {Z fraction x y z}
    A literal is built by the caller on the heap (struct, strdup'd name, atom vector) and released with Crystal_Free
@@ -235,6 +238,8 @@ static int run_history(const char *hist_path, const char *files_dir) {
     if (nt == 0 || tok[0][0] == '#') continue;
     if (!strcmp(tok[0], "pool")) { int i; for (i = 1; i < nt && n_pool < 256; i++) pool[n_pool++] = strdup(tok[i]); base_live = live_blocks; continue; }
     if (!strcmp(tok[0], "builtin") || !strcmp(tok[0], "builtinfile")) continue;   /* initial state lines are for the model */
+    int noslot = !strncmp(tok[0], "N:", 2); xrl_error **ep = noslot ? NULL : &e;
+    if (noslot) tok[0] += 2;
     printf("op %d %s", opno++, tok[0]); fflush(stdout);
     if (!strcmp(tok[0], "init")) {
       Crystal_Array *a = Crystal_ArrayInit(atoi(tok[1]), &e);
@@ -242,7 +247,7 @@ static int run_history(const char *hist_path, const char *files_dir) {
       printf(" ret=%s", a ? "P" : "0");
     } else if (!strcmp(tok[0], "add")) {
       Crystal_Struct *lit; Crystal_Struct *s = src_of(tok + 2, &lit);
-      int r = Crystal_AddCrystal(s, arr_of(tok[1]), &e);
+      int r = Crystal_AddCrystal(s, arr_of(tok[1]), ep);
       if (lit) Crystal_Free(lit);
       printf(" ret=%d", r);
     } else if (!strcmp(tok[0], "addmany")) {
@@ -250,26 +255,26 @@ static int run_history(const char *hist_path, const char *files_dir) {
       Crystal_Array *a = arr_of(tok[1]);
       for (i = 0; i < count; i++) {
         xrl_error *e1 = NULL; Crystal_Struct *lit = gen_many(seed, i);
-        int r = Crystal_AddCrystal(lit, a, &e1);
+        int r = Crystal_AddCrystal(lit, a, noslot ? NULL : &e1);
         Crystal_Free(lit);
         if (r == 1 && e1 == NULL) added++;
         else if (first < 0) { first = (int)i; e = e1; e1 = NULL; silent = (e == NULL); }
         if (e1) xrl_clear_error(&e1);
       }
       printf(" ret=%d/%d", added, first);
-      if (silent) { printf(" err=0:(refused without an error object)\n"); observe(); continue; }
+      if (silent && !noslot) { printf(" err=0:(refused without an error object)\n"); observe(); continue; }
     } else if (!strcmp(tok[0], "readmany")) {
       char path[4096]; int r;
       snprintf(path, sizeof path, "%s/f%s.dat", argv[2], tok[2]);
-      r = Crystal_ReadFile(path, arr_of(tok[1]), &e);
+      r = Crystal_ReadFile(path, arr_of(tok[1]), ep);
       printf(" ret=%d", r);
     } else if (!strcmp(tok[0], "read")) {
       char path[4096]; int r;
-      if (!strcmp(tok[2], "NULLNAME")) r = Crystal_ReadFile(NULL, arr_of(tok[1]), &e);
+      if (!strcmp(tok[2], "NULLNAME")) r = Crystal_ReadFile(NULL, arr_of(tok[1]), ep);
       else {
         if (!strcmp(tok[2], "NOFILE")) snprintf(path, sizeof path, "%s/does-not-exist.dat", argv[2]);
         else snprintf(path, sizeof path, "%s/f%s.dat", argv[2], tok[2]);
-        r = Crystal_ReadFile(path, arr_of(tok[1]), &e);
+        r = Crystal_ReadFile(path, arr_of(tok[1]), ep);
       }
       printf(" ret=%d", r);
     } else if (!strcmp(tok[0], "get")) {
